@@ -114,6 +114,15 @@ CHECKS.update({
         'note': 'trusted: reference decoder in harness/enh_driver.cpp; link-time wrapped read/write/ppoll/time (harness/vbus.cpp)',
         'technique': 'exhaustive chunking-metamorphic + reference-decoder monitor on the real device code under ASan/UBSan',
     },
+    'C15': {
+        'text': 'Answer mode on the virtual bus: generated sets of registered answers and received telegrams that extend, equal, truncate '
+                'or mutate the registered IDs, with good/bad command CRC and every requester reaction; a monitor with a reference '
+                'longest-prefix lookup decides per telegram whether the host must answer, with what bytes, how often, and when it must stay silent; '
+                'md_answer reports are counted against completed answers.',
+        'design_ref': 'DESIGN.md section 2, C15',
+        'note': 'trusted: TxMonitor::refAnswer/followForeign (harness/bus_mon.h); registrations ambiguous by source+tail length are not generated',
+        'technique': 'online answer-entitlement/content monitor with reference lookup over generated answer sets on the real stack, ASan/UBSan',
+    },
     'C17': {
         'text': 'Histories of getNextPoll interleaved with priority changes, front/back insertion, late-loaded messages, removal and reload; '
                 'an online monitor checks the stride-scheduling waiting bound and proportional shares on perturbation-free windows.',
